@@ -20,13 +20,21 @@ pub struct WriteAheadLogRecord {
 
 impl WriteAheadLog {
     pub fn clear(&mut self) -> Result<(), DbError> {
+        #[cfg(agdb_verif)]
+        crate::verif::fs_event(crate::verif::FsEventKind::WalSetLen, 0, 0);
         Ok(self.file.set_len(0)?)
     }
 
     pub fn insert(&mut self, pos: u64, value: &[u8]) -> Result<(), DbError> {
         self.file.seek(SeekFrom::End(0))?;
+        #[cfg(agdb_verif)]
+        crate::verif::fs_event(crate::verif::FsEventKind::WalWrite, pos, 8);
         self.file.write_all(&pos.serialize())?;
+        #[cfg(agdb_verif)]
+        crate::verif::fs_event(crate::verif::FsEventKind::WalWrite, pos, 8);
         self.file.write_all(&(value.len() as u64).serialize())?;
+        #[cfg(agdb_verif)]
+        crate::verif::fs_event(crate::verif::FsEventKind::WalWrite, pos, value.len() as u64);
         self.file.write_all(value)?;
 
         Ok(())
@@ -107,12 +115,16 @@ impl WriteAheadLog {
 
         while pos < size {
             if Self::skip_record(&mut self.file).is_err() {
+                #[cfg(agdb_verif)]
+                crate::verif::fs_event(crate::verif::FsEventKind::WalSetLen, pos, 0);
                 self.file.set_len(pos)?;
                 return Ok(());
             } else {
                 let new_pos = self.file.stream_position()?;
 
                 if new_pos > size {
+                    #[cfg(agdb_verif)]
+                    crate::verif::fs_event(crate::verif::FsEventKind::WalSetLen, pos, 0);
                     self.file.set_len(pos)?;
                     return Ok(());
                 } else {
